@@ -192,11 +192,44 @@ func MutateDoc(doc map[string]interface{}, g *prng.R, n int, emit func(map[strin
 		emit(c, op.Name+"@"+p.String())
 	}
 	// whole-document mutations
-	if nm, ok := doc["name"]; ok {
-		c := DeepCopy(doc).(map[string]interface{})
-		c["nameMap"] = map[string]interface{}{"en": "both spellings"}
-		_ = nm
-		emit(c, "both-name-and-nameMap")
+	// a natural-language property given in both spellings, at the top and on
+	// the first nested object that has one: the plain spelling as it stands,
+	// or itself holding a language map
+	for _, base := range []string{"name", "summary", "content", "preferredUsername"} {
+		var hosts []map[string]interface{}
+		hosts = append(hosts, doc)
+		for _, v := range doc {
+			if m, ok := v.(map[string]interface{}); ok {
+				hosts = append(hosts, m)
+			}
+		}
+		for hi, h := range hosts {
+			if _, ok := h[base]; !ok {
+				continue
+			}
+			for vi, plain := range []interface{}{nil, map[string]interface{}{"en": "a map under the plain spelling"}} {
+				c := DeepCopy(doc).(map[string]interface{})
+				tgt := c
+				if hi > 0 {
+					// find the copy of the nested host
+					for k, v := range doc {
+						if m, ok := v.(map[string]interface{}); ok && fmt.Sprint(m) == fmt.Sprint(h) {
+							tgt, _ = c[k].(map[string]interface{})
+							break
+						}
+					}
+					if tgt == nil {
+						continue
+					}
+				}
+				if plain != nil {
+					tgt[base] = plain
+				}
+				tgt[base+"Map"] = map[string]interface{}{"fr": "both spellings"}
+				emit(c, fmt.Sprintf("both-%s-and-%sMap.%d.%d", base, base, hi, vi))
+			}
+			break
+		}
 	}
 	{
 		c := DeepCopy(doc).(map[string]interface{})
